@@ -71,8 +71,8 @@ PROPS = {
     },
     "C10": {
         "module": "Cdecao.Props.C10",
-        "extra_modules": ["Cdecao.Props.Main", "Cdecao.Props.PanicTie"],
-        "theorems": ["Props.panic_sites_tie", "Props.C10_node", "Props.C10_tree", "Props.C10_cli", "Props.C10_cde", "Props.C10_main", "Props.C10_main_threads", "Props.main_skeleton_tie"],
+        "extra_modules": ["Cdecao.Props.Main", "Cdecao.Props.PanicTie", "Cdecao.Props.MainE2E"],
+        "theorems": ["Props.main_simple_total", "Props.main_cde_total", "Props.panic_sites_tie", "Props.C10_node", "Props.C10_tree", "Props.C10_cli", "Props.C10_cde", "Props.C10_main", "Props.C10_main_threads", "Props.main_skeleton_tie"],
         "streams": ["node", "node-rooms", "solve", "cli-simple", "cli-main", "node-exhaustive"],
     },
     "C11": {
